@@ -141,6 +141,7 @@ var floatPkgs = []fpkgSpec{
 		{name: "bitCode", lean: "bitCode"},
 		{name: "bitCodeOpen", lean: "bitCodeOpen"},
 		{name: "intersect", lean: "intersect", panicMode: "option"},
+		{name: "clampToBound", lean: "clampToBound"},
 		{name: "Bound", lean: "clipBound"},
 	}},
 	{file: "PlanarGo", rel: "planar", imports: []string{"BoundGo"}, fns: []ffn{
